@@ -11,7 +11,7 @@ CHECKS = {
         technique="bounded symbolic execution of the real kernel source (merge-mode interpreter) + per-cell z3 queries; fork-mode "
                   "execution of the real glue with a symbolic scoring scheme",
         text="Bounded model checking of _pairwise_cost_matrix_only as read from /repo on this run: for every level matrix with "
-             "n<=4,m<=3 (thorough n<=5,m<=4) and every valid scheme (12 reals) each table cell equals the definition, the table is "
+             "n<=4,m<=3 (thorough n<=5,m<=4; isomorphism queries at 3x3 and 4x2) and every valid scheme (12 reals) each table cell equals the definition, the table is "
              "mirror-consistent and invariant under order-isomorphic matrices [solver-quantified]; the Dataset->matrix->table->"
              "Kemeny-sum glue is executed natively on enumerated real datasets (n<=3,m<=2 exhaustive + n=4 samples) with the scheme "
              "symbolic [shape-enumerated x solver-quantified].",
@@ -19,10 +19,10 @@ CHECKS = {
     "C01": dict(
         technique="fork-mode symbolic execution of the real get_kemeny_score with 12 symbolic penalties (z3 refutes impl != "
                   "definition per enumerated dataset/candidate shape); merge-mode bounded symbolic execution of __merge",
-        text="For every enumerated (dataset, candidate) shape with n<=3 (m<=2; thorough m<=3, n=4) the real scoring code is run "
+        text="For every enumerated (dataset, candidate) shape with n<=3, m<=2 with up to one extra candidate element, plus n=4,m=2 samples (thorough m<=3, n=4 exhaustive for m=1) the real scoring code is run "
              "with the 12 penalties symbolic and z3 refutes 'exists a valid scheme with impl != definition'; candidates lacking an "
              "element must raise the dedicated exception; the merge-sort counting kernel is checked for all sorted arrays up to "
-             "3+3 with unwinding and index obligations.",
+             "3+3 (quick: 3+2 and 1+3) with unwinding and index obligations.",
         design="4/C01"),
     "C03": dict(
         technique="fork-mode symbolic execution of every algorithm configuration (scheme symbolic, pivots and ILP optima as "
